@@ -260,6 +260,13 @@ def add_used_lemmas(ex, spec, reg):
 
 
 def _verify_variant(spec, reg, fsrc, modenv, ptypes, label, res):
+    if spec.get('variant_loops', {}).get(label):
+        # loop invariants that only make sense for one parameter-type alternative
+        spec = dict(spec)
+        loops = {k: list(v) for k, v in spec.get('loops', {}).items()}
+        for k, v in spec['variant_loops'][label].items():
+            loops[k] = loops.get(k, []) + list(v)
+        spec['loops'] = loops
     ex = Executor(spec, reg, fsrc, modenv, spec.get('opts'))
     ex.variant = label
     add_used_lemmas(ex, spec, reg)
@@ -305,7 +312,9 @@ def _verify_variant(spec, reg, fsrc, modenv, ptypes, label, res):
                 except OutsideSubset as e:
                     raise SpecError('return value of %s: %s' % (spec['short'], e))
             s.env['result'] = val
-            for i, e in enumerate(spec['ensures']):
+            # ensures of one parameter-type alternative only (TUnion parameters)
+            v_ens = list(spec.get('variant_ensures', {}).get(ex.variant or '', []))
+            for i, e in enumerate(list(spec['ensures']) + v_ens):
                 name, text = e if isinstance(e, tuple) else ('post%d' % (i + 1), e)
                 ex.oblige(s, 'post:%s' % name, ex.spec_bool(text, s), 'post',
                           note=text)
